@@ -395,3 +395,51 @@ pub fn random_document(rng: &mut Rng) -> (&'static str, Vec<u8>) {
         _ => ("random:empty-or-space", pb(rng, &[b"", b" ", b"\n", b"\xef\xbb\xbf", b"<", b"<?xml?>"]).to_vec()),
     }
 }
+
+
+/// Grafts one complete element of `donor` (start tag through its matching
+/// end tag, or an empty-element tag) into `doc` right after a random tag.
+/// This produces documents that mix PDUs of different message types, which
+/// single-document mutators never do.
+pub fn graft(rng: &mut Rng, doc: &[u8], donor: &[u8]) -> (&'static str, Vec<u8>) {
+    let dt = tokens(donor);
+    let tags: Vec<usize> = (0..dt.len()).filter(|i| dt[*i].2).collect();
+    // candidate start tags in the donor: not the first tag (root), not end tags, not declarations
+    let starts: Vec<usize> = tags
+        .iter()
+        .copied()
+        .skip(1)
+        .filter(|i| {
+            let t = dt[*i];
+            let b = &donor[t.0..t.1];
+            b.len() > 2 && b[1] != b'/' && b[1] != b'?' && b[1] != b'!'
+        })
+        .collect();
+    let here = tokens(doc);
+    let here_tags: Vec<usize> = (0..here.len()).filter(|i| here[*i].2).collect();
+    if starts.is_empty() || here_tags.is_empty() {
+        return tag_mutation(rng, doc);
+    }
+    let si = *rng.pick(&starts);
+    let st = dt[si];
+    let self_closing = donor[st.0..st.1].ends_with(b"/>");
+    let mut end = st.1;
+    if !self_closing {
+        let mut depth = 1i32;
+        for i in tags.iter().copied().filter(|i| *i > si) {
+            let t = dt[i];
+            let b = &donor[t.0..t.1];
+            if b.len() > 2 && b[1] == b'/' {
+                depth -= 1;
+            } else if b.len() > 2 && b[1] != b'?' && b[1] != b'!' && !b.ends_with(b"/>") {
+                depth += 1;
+            }
+            if depth == 0 {
+                end = t.1;
+                break;
+            }
+        }
+    }
+    let at = here[*rng.pick(&here_tags)].1;
+    ("cross:graft-element", splice(doc, at, at, &donor[st.0..end]))
+}
